@@ -288,6 +288,52 @@ func (i *impl) exec(op string) string {
 			sort.Strings(res)
 			return "burst " + strings.Join(res, ",")
 		})
+	case "wstorm":
+		// n writers released at the same instant, `rounds` times, on a healthy connection: every Write that returns nil is in the
+		// log exactly once; no Write is left hanging
+		nw, rounds := 32, 150
+		if len(w) > 2 {
+			nw, _ = strconv.Atoi(w[1])
+			rounds, _ = strconv.Atoi(w[2])
+		}
+		return guard(func() string {
+			u := i.cur()
+			for r := 0; r < rounds; r++ {
+				start := make(chan struct{})
+				errs := make(chan error, nw)
+				for k := 0; k < nw; k++ {
+					go func(k int) {
+						<-start
+						errs <- i.tr.Write([]byte{0xee, byte(r), byte(r >> 8), byte(k)})
+					}(k)
+				}
+				close(start)
+				for k := 0; k < nw; k++ {
+					select {
+					case err := <-errs:
+						if err != nil {
+							return fmt.Sprintf("wstorm round %d: Write failed on a healthy connection: %v", r, err)
+						}
+					case <-time.After(watchdog):
+						return fmt.Sprintf("wstorm round %d: only %d of %d concurrent writers returned", r, k, nw)
+					}
+				}
+				u.mu.Lock()
+				seen := map[string]int{}
+				for _, b := range u.log {
+					if len(b) == 4 && b[0] == 0xee && int(b[1])|int(b[2])<<8 == r {
+						seen[string(b)]++
+					}
+				}
+				u.mu.Unlock()
+				for k := 0; k < nw; k++ {
+					if n := seen[string([]byte{0xee, byte(r), byte(r >> 8), byte(k)})]; n != 1 {
+						return fmt.Sprintf("wstorm round %d: the Write of writer %d returned nil and the connection accepted its payload %d times", r, k, n)
+					}
+				}
+			}
+			return "wstorm ok"
+		})
 	case "gatedpair":
 		// A is parked inside the underlying Write; B is issued behind it; then A's write fails and the transport redials.
 		u := i.cur()
@@ -521,6 +567,13 @@ func main() {
 		return
 	}
 	rng := h.Rng
+	h.Case("writer storm")
+	do("new 3")
+	if out := do("wstorm 32 1500"); out != "wstorm ok" {
+		h.Violate(out)
+	}
+	do("close")
+	h.Distinct("wstorm")
 	for c := 0; c < h.N; c++ {
 		budget := 1 + rng.Intn(3)
 		h.Case(fmt.Sprintf("rnd %d budget=%d", c, budget))
@@ -541,6 +594,9 @@ func main() {
 			case k < 4:
 				out := do("write " + pay)
 				if strings.HasPrefix(out, "ok") {
+					if !alive {
+						h.Violate("Write returned nil after the redial budget had been exhausted (the transport had already failed its callers): " + out)
+					}
 					okWrites = append(okWrites, pay)
 				} else {
 					alive = false // budget exhausted through the write path
@@ -573,6 +629,9 @@ func main() {
 				sig += "r"
 			case k == 7:
 				if alive {
+					if rng.Intn(3) == 0 {
+						pay = lp.Hex(append([]byte("ping"), byte(c), byte(seq))) // data that merely starts like the control ping
+					}
 					do("deliver " + pay)
 					pendingReads++
 				}
@@ -684,6 +743,8 @@ func main() {
 		// dead or alive, nothing may block now
 		if o := do("write " + lp.Hex([]byte{0xee, byte(c)})); o == "hang" {
 			h.Violate("Write blocks instead of failing")
+		} else if !alive && strings.HasPrefix(o, "ok") {
+			h.Violate("Write returned nil after the redial budget had been exhausted (the transport had already failed its callers): " + o)
 		}
 		if h.Distinct(fmt.Sprintf("rnd/%d/%s", budget, sig)) && strings.ContainsAny(sig, "fr") {
 			h.Sample()
